@@ -3,6 +3,7 @@
 // a generic driver interprets the shape spec of a row.
 #include "../engine/pbt.hpp"
 #include "../engine/gen.hpp"
+#include "../engine/guard.hpp"
 #include "goldilocks_base_field.hpp"
 #include "goldilocks_cubic_extension.hpp"
 
@@ -41,7 +42,8 @@ enum { P_ROW = 0, P_SA = 1, P_SB = 2, P_SC = 3, P_IA = 4, P_IB = 12, P_IC = 20, 
 struct Operand {
     Shape s; int L, dim; std::vector<uint64_t> pos; E *arena = nullptr; uint64_t size = 0;
     std::vector<ref::E3> eff; // effective k-th operand (embedded into the extension)
-    ~Operand() { free(arena); }
+    guard::Buf gb; bool guarded = false;
+    ~Operand() { if (!guarded) free(arena); }
 };
 static void positions(Operand &o, uint64_t stride, const uint64_t *idx)
 {
@@ -58,8 +60,8 @@ static void fill_input(Operand &o, const Case &c, int which, uint64_t junk)
     const int np = NPOOL / 2;
     o.eff.assign(o.L, ref::E3{0, 0, 0});
     if (is_arr(o.s)) {
-        free(o.arena);
-        o.arena = (E *)malloc(o.size * sizeof(E)); // exact extent
+        // exact extent: the arena ends at a guard page (ASan build: exact-size malloc), one element past the last designated cell faults
+        o.gb.alloc(o.size * sizeof(E)); o.arena = o.gb.as<E>(); o.guarded = true; // exact extent
         for (uint64_t i = 0; i < o.size; i++) o.arena[i].fe = pbt::mix(junk, i + 1000 * which);
         for (int k = 0; k < o.L; k++) for (int i = 0; i < o.dim; i++) o.arena[o.pos[k] + i].fe = pool[(3 * k + i) % np];
         for (int k = 0; k < o.L; k++) for (int i = 0; i < o.dim; i++) o.eff[k][i] = o.arena[o.pos[k] + i].fe; // overlapping / repeated positions: last write wins
